@@ -250,6 +250,9 @@ type CorreOTSendResult struct {
 // that ctxHash be initialized with some kind of nonce in that case.
 func CorreOTSend(ctxHash *hash.Hash, setup *CorreOTSendSetup, batchSize int, msg *CorreOTReceiveMessage) (*CorreOTSendResult, error) {
 	batchSizeBytes := batchSize >> 3
+	if msg == nil {
+		return nil, errors.New("CorreOTSend: empty message")
+	}
 
 	// Doing a keyed hash for our PRG is faster than cloning a forked hash many times
 	prgKey := make([]byte, 32)
